@@ -59,14 +59,19 @@ func (vc *VC) execCall(fr *frame, n *Node, x *ssa.Call) {
 		args = append(args, vc.value(fr, n, a))
 	}
 	sig := c.Signature()
+	// the callee a clause can name: the static callee, or a local closure reached through the variable that holds it
+	named := c.StaticCallee()
+	if named == nil && !c.IsInvoke() {
+		named = closureOrigin(c.Value)
+	}
 	if fr.fc != nil && len(fr.fc.CallSites) > 0 {
-		if sc := c.StaticCallee(); sc != nil {
-			vc.callSiteAsserts(fr, n, x, contractName(sc), args)
+		if named != nil {
+			vc.callSiteAsserts(fr, n, x, contractName(named), args)
 		}
 	}
 	if fr.fc != nil && fr == vc.top {
-		if sc := c.StaticCallee(); sc != nil {
-			vc.mustCallMark(fr, n, x, contractName(sc), args)
+		if named != nil {
+			vc.mustCallMark(fr, n, x, contractName(named), args)
 		}
 	}
 	if c.IsInvoke() {
